@@ -37,6 +37,7 @@ def skip_attr(skip):
     return {"none": "", "serde": "#[serde(skip)]", "typeshare": "#[typeshare(skip)]"}[skip]
 
 
+LAYOUTS = ["one_file", "bad_file_first", "bad_file_last"]          # MC_C08!Layouts
 SUPPORT = "#[typeshare]\npub struct Gen<X> { pub g: X }\n#[typeshare]\npub struct Fine { pub ok: u32 }\n"
 
 
@@ -145,16 +146,24 @@ def run(chk):
         if lang in ("kotlin", "swift", "scala") and c["construct"].startswith("const"):
             lang = "typescript"
         d = os.path.join(work, f"k{i}")
-        cli.make_tree(d, {"src/lib.rs": source(c)})
+        layout = LAYOUTS[(i // step) % len(LAYOUTS)]
+        env = {}
+        if layout == "one_file":
+            cli.make_tree(d, {"src/lib.rs": source(c)})
+        else:       # the offending item alone in its file; a file of valid items arrives after / before it
+            src = source(c)
+            assert src.startswith(SUPPORT)
+            cli.make_tree(d, {"src/bad/host.rs": src[len(SUPPORT):], "src/good/support.rs": SUPPORT})
+            env = {"TYPESHARE_VERIF_ORDER": ",Host,HOST,Gen" if layout == "bad_file_first" else "Gen,Host,HOST,", "TYPESHARE_VERIF_THREADS": "2"}
         out = os.path.join(d, "out")
         os.makedirs(out)
         outfile = os.path.join(out, "out." + common.EXT[lang])
         open(outfile, "w").write("// previous output\n")
         before = cli.snapshot(out)
         time.sleep(0.002)
-        r = cli.run_cli(["-l", lang] + LANG_ARGS[lang] + ["-o", outfile, os.path.join(d, "src")], timeout=20)
+        r = cli.run_cli(["-l", lang] + LANG_ARGS[lang] + ["-o", outfile, os.path.join(d, "src")], env=env, timeout=20)
         after = cli.snapshot(out)
-        return c, lang, r, before != after
+        return c, lang + ("" if layout == "one_file" else "+" + layout), r, before != after
 
     with cf.ThreadPoolExecutor(max_workers=12) as ex:
         for c, lang, r, touched in ex.map(cli_run, subset):
